@@ -472,3 +472,5 @@ def run(ctx, led):
     from . import predrules
     run_rule(led, "L11", "implicit kernel reasons imply the predicate they explain (shared with C02-U8)", predrules.implicit_reasons, ctx)
     run_rule(led, "L12", "CACHE-INVALIDATION: the cached profile explanation is reset whenever the profile operand changes", l12, ctx)
+    from . import C07 as _C07
+    run_rule(led, "L14", "the nogood a lazy reason refers to is never deleted while it is the reason of a trail entry (shared with C07-J1)", _C07.j1, ctx)
